@@ -970,18 +970,10 @@ func (c *callable) Value(env *env) reflect.Value {
 		err := nvm.runFunc(fn, vars)
 		if err != nil {
 			if p, ok := err.(*PanicError); ok {
-				var msg string
-				for ; p != nil; p = p.next {
-					msg = "\n" + msg
-					if p.recovered {
-						msg = " [recovered]" + msg
-					}
-					msg = p.String() + msg
-					if p.next != nil {
-						msg = "\tpanic: " + msg
-					}
-				}
-				err = &fatalError{msg: msg}
+				// The function panicked: the panic continues in the caller, as the
+				// panic of a native function does, so that the caller can recover
+				// it or terminate with a *PanicError.
+				panic(p.message)
 			}
 			panic(err)
 		}
